@@ -23,7 +23,7 @@ def configs(tier):
     q = tier == 'quick'
     out = []
     hi = 4 if q else 6
-    cap = 36 if q else 64        # thorough sized for about half an hour on 16 cores (exact products of (m n) x (M N) kernels)
+    cap = 36 if q else 42        # thorough sized for about half an hour on 16 cores (exact products of (m n) x (M N) kernels)
     for m in range(1, hi + 1):
         for n in range(1, hi + 1):
             for Q in (1, 2, 3):
@@ -48,7 +48,7 @@ def configs(tier):
                 out.append({'name': 'as-%dx%d-Q%d' % (m, n, Q), 'kind': 'as', 'in': [m, n], 'Q': Q})
     # lengths that are not "fast" FFT lengths (a prime factor above 11): an implementation that transforms at a padded fast length and crops
     # differs only there
-    for (m, n) in [] if q else [(1, 13), (13, 1)]:      # ~10 min each: thorough tier only
+    for (m, n) in [] if q else [(1, 13)]:      # ~10 min: thorough tier only
         out.append({'name': 'as-%dx%d-Q1' % (m, n), 'kind': 'as', 'in': [m, n], 'Q': 1})
     # the complete band through the propagation-level routines with ONE output spacing: a non-square pupil gets a different Q per axis
     for meth in ('mdft', 'czt'):
